@@ -24,6 +24,7 @@ from kopf._core.engines import peering
 logging.disable(logging.CRITICAL)
 ENCODED = [peering.process_peering_event, peering.Peer.__init__, peering.keepalive, peering.touch, peering.clean]
 META = {
+    'technique': 'bounded symbolic execution of the real kopf code (CrossHair 0.0.110 + z3): exhaustive path exploration per obligation cell, counterexamples replayed concretely; plus direct z3 queries whose formulas are generated from the source AST of the real functions (vkopf/astsmt.py; the keep-alive period for every lifetime), validated against the real code on concrete vectors on every run',
     'bounds': 'H1: 2 foreign peers + optional own record; symbolic priorities, lifetimes (>=0 or missing -> 60), lastseen ages (>=0 or '
               'missing), our priority symbolic; prior toggle state symbolic. H2: lifetime symbolic >= 2 (0/1 cannot be renewed in time by '
               'construction: outside), jitter symbolic in [5,10], 3 renewals. H3: 2 operators, symbolic priorities (distinct), start '
